@@ -1,8 +1,11 @@
 #!/bin/sh
-# offline build of the framework from files on disk: regenerate Generated/*.lean from /repo, build library + driver
+# offline build of the framework from files on disk: regenerate Generated/*.lean from /repo, build the model library, the
+# driver and every property-theorem module (so that each check only re-checks what changed; a check still rebuilds its own
+# obligations from /repo's working tree: translate -> lake build of its Props modules and their axiom audits)
 set -e
 cd "$(dirname "$0")"
 /venv/bin/python harness/translate.py >/dev/null
 cd lean
-lake build 2>&1 | tail -5
+lake build 2>&1 | tail -2
+lake build $(ls MdVerif/Props/*.lean | sed 's#MdVerif/Props/#MdVerif.Props.#;s#\.lean$##') 2>&1 | tail -2
 test -x .lake/build/bin/mdmodel
